@@ -1273,7 +1273,7 @@ def subst_parameters(e: Expr, inst: Dict[str, Expr]) -> Expr:
     return e
 
 
-def is_monotonic_on(dfx: Expr, var: str, lower: Expr, upper: Expr) -> bool:
+def is_monotonic_on(dfx: Expr, var: str, lower: Expr, upper: Expr, g: Optional[Expr] = None) -> bool:
     """Return False if the derivative dfx (in variable var) takes both signs, or
     is undefined, at sample points strictly between lower and upper. Returns True
     when neither is found or the expressions cannot be evaluated.
@@ -1310,7 +1310,26 @@ def is_monotonic_on(dfx: Expr, var: str, lower: Expr, upper: Expr) -> bool:
             signs.add(1)
         elif val < -1e-9:
             signs.add(-1)
-    return len(signs) < 2
+    if len(signs) >= 2:
+        return False
+    if g is not None:
+        # The values of g at the (increasing) sample points must themselves be
+        # monotonic: a jump across a pole shows up here even though g' keeps its sign.
+        vals = []
+        for pt in sorted(pts):
+            try:
+                val = expr.eval_expr(g.subst(var, Const(Fraction(pt).limit_denominator(10 ** 6))))
+            except (ZeroDivisionError, ValueError):
+                return False
+            except (OverflowError, TypeError, NotImplementedError, AssertionError):
+                continue
+            if not isinstance(val, complex):
+                vals.append(val)
+        ups = any(b > a + 1e-12 for a, b in zip(vals, vals[1:]))
+        downs = any(b < a - 1e-12 for a, b in zip(vals, vals[1:]))
+        if ups and downs:
+            return False
+    return True
 
 
 def is_inverse_on(gu: Expr, u: str, g: Expr, var: str, lower: Expr, upper: Expr) -> bool:
@@ -1417,9 +1436,10 @@ class Substitution(Rule):
         dfx = deriv(e.var, var_subst, ctx)
         if e.is_integral():
             # Parameters get sample values that satisfy the conditions
-            inst = sample_parameters([dfx, e.lower, e.upper], e.var, ctx.get_conds())
+            inst = sample_parameters([dfx, var_subst, e.lower, e.upper], e.var, ctx.get_conds())
             if not is_monotonic_on(subst_parameters(dfx, inst), e.var,
-                                   subst_parameters(e.lower, inst), subst_parameters(e.upper, inst)):
+                                   subst_parameters(e.lower, inst), subst_parameters(e.upper, inst),
+                                   g=subst_parameters(var_subst, inst)):
                 raise AssertionError("Substitution: %s is not monotonic on the interval of integration" % var_subst)
         ctx2 = Context(ctx)
         if e.is_integral():
